@@ -444,7 +444,9 @@ static void run_bool()
 }
 
 // ---- complex batches: interleaved (re, im) elements ----
-template <class T>
+// FORM 0: the members load_aligned/load_unaligned(C const*) and store_aligned/store_unaligned(C*); 1: xsimd::load_as<C> /
+// xsimd::store_as with a mode tag; 2: the members load(p, mode) / store(p, mode)
+template <class T, int FORM = 0>
 static void run_complex()
 {
     g_section = "complex load/store";
@@ -471,15 +473,38 @@ static void run_complex()
                 violation("complex load/store", tn<C>::name(), "faulted " + std::to_string((unsigned char*)g_fault_addr - p) + " bytes from the start of a buffer of " + std::to_string(F) + " bytes at data offset " + std::to_string(p - g_lo));
                 continue;
             }
-            Bc v = aligned ? Bc::load_aligned((const C*)p) : Bc::load_unaligned((const C*)p);
+            Bc v;
+            if constexpr (FORM == 0)
+                v = aligned ? Bc::load_aligned((const C*)p) : Bc::load_unaligned((const C*)p);
+            else if constexpr (FORM == 1)
+                v = aligned ? xs::load_as<C, A>((const C*)p, xs::aligned_mode()) : xs::load_as<C, A>((const C*)p, xs::unaligned_mode());
+            else
+                v = aligned ? Bc::load((const C*)p, xs::aligned_mode()) : Bc::load((const C*)p, xs::unaligned_mode());
             T re[64], im[64];
             v.real().store_unaligned(re);
             v.imag().store_unaligned(im);
             fill_arena(8);
-            if (aligned)
-                v.store_aligned((C*)p);
+            if constexpr (FORM == 0)
+            {
+                if (aligned)
+                    v.store_aligned((C*)p);
+                else
+                    v.store_unaligned((C*)p);
+            }
+            else if constexpr (FORM == 1)
+            {
+                if (aligned)
+                    xs::store_as((C*)p, v, xs::aligned_mode());
+                else
+                    xs::store_as((C*)p, v, xs::unaligned_mode());
+            }
             else
-                v.store_unaligned((C*)p);
+            {
+                if (aligned)
+                    v.store((C*)p, xs::aligned_mode());
+                else
+                    v.store((C*)p, xs::unaligned_mode());
+            }
             asm volatile("" ::: "memory");
         g_armed = 0;
             for (size_t i = 0; i < Bc::size; ++i)
@@ -501,7 +526,139 @@ static void run_complex()
         }
     R.states += n;
     R.transitions += n * 2 * Bc::size;
-    R.per_op[std::string("complex load/store<") + tn<C>::name() + ">"] += n;
+    R.per_op[std::string("complex load/store<") + tn<C>::name() + ">" + (FORM == 1 ? " load_as/store_as" : FORM == 2 ? " load/store(mode)" : "")] += n;
+}
+
+// the split form: real parts and imaginary parts in two separate arrays (load_*(re, im) / store_*(re, im)); each array in
+// turn sits in the guarded arena while the other one is an ordinary local buffer
+template <class T>
+static void run_complex_split()
+{
+    g_section = "complex split load/store";
+    using C = std::complex<T>;
+    using Bc = xs::batch<C, A>;
+    const size_t F = Bc::size * sizeof(T);
+    const size_t al = A::alignment();
+    uint64_t n = 0;
+    for (int which = 0; which < 2; ++which) // 0: the real array is in the arena, 1: the imaginary array
+        for (int aligned = 0; aligned < 2; ++aligned)
+            for (unsigned char* p : placements(F, aligned ? al : 1))
+            {
+                ++n;
+                fill_arena(9);
+                alignas(64) T other[64];
+                T want_in[64], want_other[64];
+                for (size_t i = 0; i < Bc::size; ++i)
+                {
+                    want_in[i] = (T)(i + 1) * (T)0.5;
+                    want_other[i] = (T)(i + 1) * (T)-0.25 - (T)100;
+                    other[i] = want_other[i];
+                }
+                memcpy(p, want_in, F);
+                g_armed = 1;
+                asm volatile("" ::: "memory");
+                if (sigsetjmp(g_env, 1))
+                {
+                    violation("complex split load/store", tn<C>::name(), "faulted " + std::to_string((unsigned char*)g_fault_addr - p) + " bytes from the start of an array of " + std::to_string(F) + " bytes");
+                    continue;
+                }
+                const T* rp = which == 0 ? (const T*)p : other;
+                const T* ip = which == 0 ? other : (const T*)p;
+                Bc v = aligned ? Bc::load_aligned(rp, ip) : Bc::load_unaligned(rp, ip);
+                T re[64], im[64];
+                v.real().store_unaligned(re);
+                v.imag().store_unaligned(im);
+                fill_arena(10);
+                for (size_t i = 0; i < Bc::size; ++i)
+                    other[i] = (T)7777;
+                if (aligned)
+                    v.store_aligned((T*)rp, (T*)ip);
+                else
+                    v.store_unaligned((T*)rp, (T*)ip);
+                asm volatile("" ::: "memory");
+                g_armed = 0;
+                const T* wre = which == 0 ? want_in : want_other;
+                const T* wim = which == 0 ? want_other : want_in;
+                for (size_t i = 0; i < Bc::size; ++i)
+                    if (re[i] != wre[i] || im[i] != wim[i])
+                    {
+                        violation("complex split load", tn<C>::name(), "lane " + std::to_string(i) + " of real()/imag() does not hold element " + std::to_string(i) + " of the real / imaginary array");
+                        break;
+                    }
+                if (memcmp(p, want_in, F) != 0 || memcmp(other, want_other, F) != 0)
+                    violation("complex split store", tn<C>::name(), "stored real / imaginary arrays differ from the lanes");
+                unsigned char* a = p - 160 < g_lo ? g_lo : p - 160;
+                unsigned char* z = p + F + 160 > g_hi ? g_hi : p + F + 160;
+                for (unsigned char* q = a; q < z; ++q)
+                    if ((q < p || q >= p + F) && *q != pat((size_t)(q - g_lo), 10))
+                    {
+                        violation("complex split store", tn<C>::name(), "a byte " + std::to_string(q - p) + " relative to the array (outside its " + std::to_string(F) + " bytes) was modified");
+                        break;
+                    }
+            }
+    R.states += n;
+    R.transitions += n * 2 * Bc::size;
+    R.per_op[std::string("complex split load/store<") + tn<C>::name() + ">"] += n;
+}
+
+// mixed precision: load_as<complex<To>>(complex<From> const*) reads To-batch-size elements of complex<From>, store_as the inverse
+template <class From, class To>
+static void run_complex_mixed()
+{
+    g_section = "complex converting load/store";
+    using CF = std::complex<From>;
+    using CT = std::complex<To>;
+    using Bc = xs::batch<CT, A>;
+    const size_t F = Bc::size * sizeof(CF);
+    const size_t al = A::alignment();
+    uint64_t n = 0;
+    for (int aligned = 0; aligned < 2; ++aligned)
+        for (unsigned char* p : placements(F, aligned ? al : 1))
+        {
+            ++n;
+            fill_arena(11);
+            From want[128];
+            for (size_t i = 0; i < 2 * Bc::size; ++i)
+                want[i] = (From)(i + 1) * (From)0.5;
+            memcpy(p, want, F);
+            g_armed = 1;
+            asm volatile("" ::: "memory");
+            if (sigsetjmp(g_env, 1))
+            {
+                violation("complex converting load/store", tn<CT>::name(), "faulted " + std::to_string((unsigned char*)g_fault_addr - p) + " bytes from the start of a buffer of " + std::to_string(F) + " bytes");
+                continue;
+            }
+            Bc v = aligned ? xs::load_as<CT, A>((const CF*)p, xs::aligned_mode()) : xs::load_as<CT, A>((const CF*)p, xs::unaligned_mode());
+            To re[64], im[64];
+            v.real().store_unaligned(re);
+            v.imag().store_unaligned(im);
+            fill_arena(12);
+            if (aligned)
+                xs::store_as((CF*)p, v, xs::aligned_mode());
+            else
+                xs::store_as((CF*)p, v, xs::unaligned_mode());
+            asm volatile("" ::: "memory");
+            g_armed = 0;
+            for (size_t i = 0; i < Bc::size; ++i)
+                if (re[i] != (To)want[2 * i] || im[i] != (To)want[2 * i + 1])
+                {
+                    violation("complex converting load", tn<CT>::name(), "lane " + std::to_string(i) + " of real()/imag() does not hold the converted memory element " + std::to_string(i));
+                    break;
+                }
+            if (memcmp(p, want, F) != 0)
+                violation("complex converting store", tn<CT>::name(), "stored interleaved elements differ from the converted lanes");
+            unsigned char* a = p - 160 < g_lo ? g_lo : p - 160;
+            unsigned char* z = p + F + 160 > g_hi ? g_hi : p + F + 160;
+            for (unsigned char* q = a; q < z; ++q)
+                if ((q < p || q >= p + F) && *q != pat((size_t)(q - g_lo), 12))
+                {
+                    violation("complex converting store", tn<CT>::name(), "a byte " + std::to_string(q - p) + " relative to the buffer (outside its " + std::to_string(F) + " bytes) was modified");
+                    break;
+                }
+        }
+    R.states += n;
+    R.transitions += n * 2 * Bc::size;
+    R.per_op[std::string("complex converting load/store<") + tn<CT>::name() + ">"] += n;
 }
 
 // ---- gather / scatter ----
@@ -988,6 +1145,14 @@ int main(int argc, char** argv)
     run_type<double>();
     run_complex<float>();
     run_complex<double>();
+    run_complex<float, 1>();
+    run_complex<double, 1>();
+    run_complex<float, 2>();
+    run_complex<double, 2>();
+    run_complex_split<float>();
+    run_complex_split<double>();
+    run_complex_mixed<float, double>();
+    run_complex_mixed<double, float>();
     J j;
     j.obj();
     j.k("property_id").str("C04");
